@@ -213,7 +213,7 @@ Proof. intros (A1 & A2 & A3 & A4) (B1 & B2 & B3 & B4). repeat split; congruence.
 Lemma arm_same st : same st (arm st).
 Proof.
   unfold arm. destruct (s_armed st =? s_deadline st); [apply same_refl|].
-  unfold same, emit; cbn [s_werr s_trace s_held s_served]; rewrite wr_cons, app_nil_r; repeat split.
+  unfold same, emit; cbn [fst snd s_werr s_trace s_held s_served]; rewrite wr_cons, app_nil_r; repeat split.
 Qed.
 Lemma before_write_same st : same st (before_write st).
 Proof. unfold before_write. eapply same_trans; [|apply arm_same]. repeat split. Qed.
@@ -227,7 +227,7 @@ Proof.
   destruct q as [|x q'].
   - destruct ((0 <=? tc_eof c) && negb (negb (s_armed st =? 0) && (s_armed st <=? tc_eof c))); [repeat split|].
     destruct (negb (s_armed st =? 0)); [repeat split|].
-    unfold same, emit; cbn [s_werr s_trace s_held s_served]; rewrite wr_cons, app_nil_r; repeat split.
+    unfold same, emit; cbn [fst snd s_werr s_trace s_held s_served]; rewrite wr_cons, app_nil_r; repeat split.
   - destruct (negb (s_armed st =? 0) && (s_armed st <=? ch_t x) && negb ((0 <=? tc_eof c) && (tc_eof c <? s_armed st))); [repeat split|].
     destruct ((0 <=? tc_eof c) && (tc_eof c <? ch_t x)); [repeat split|].
     destruct (arrived (ch_t x) (x :: q')) as [n1 q1]. repeat split.
@@ -236,7 +236,7 @@ Qed.
 Lemma read_until_same c fuel : forall st n, same st (fst (read_until c fuel st n)).
 Proof.
   induction fuel as [|f IH]; intros st n; cbn.
-  - destruct (n <=? s_avail st); [apply same_refl|]. unfold same, emit; cbn [s_werr s_trace s_held s_served]; rewrite wr_cons, app_nil_r; repeat split.
+  - destruct (n <=? s_avail st); [apply same_refl|]. unfold same, emit; cbn [fst snd s_werr s_trace s_held s_served]; rewrite wr_cons, app_nil_r; repeat split.
   - destruct (n <=? s_avail st); [apply same_refl|].
     pose proof (conn_read_same c st) as R. destruct (conn_read c st) as [st1 ok]. cbn [fst] in R.
     destruct ok; [eapply same_trans; [exact R|apply IH]|exact R].
@@ -261,7 +261,8 @@ Proof.
   destruct (s_held st) as [|h hs] eqn:Eh; [cbn; rewrite app_nil_r; repeat split; assumption|].
   pose proof (arm_facts st) as (A1 & A2 & A3 & A4 & _). pose proof (arm_same st) as (S1 & S2 & S3 & S4).
   rewrite (conn_write_nostall c (arm st) (h :: hs) Hs ltac:(lia) ltac:(lia)).
-  cbn. rewrite wr_cons. rewrite S2. repeat split. exact S4.
+  unfold emit, set_held. cbn [fst snd s_werr s_trace s_held s_served negb].
+  rewrite wr_cons, S2. repeat split. exact S4.
 Qed.
 
 Lemma stage_nostall c st id big :
@@ -360,7 +361,7 @@ Proof.
     pose proof (same_J _ _ RS JB) as J2.
     destruct ok; cbn [negb]; [|apply finish_J; assumption].
     apply finish_J; [exact Hs|apply good_emit; [exact R|reflexivity]|].
-    eapply same_J; [|exact J2]. unfold same, emit; cbn [s_werr s_trace s_held s_served]; rewrite wr_cons, app_nil_r; repeat split.
+    eapply same_J; [|exact J2]. unfold same, emit; cbn [fst snd s_werr s_trace s_held s_served]; rewrite wr_cons, app_nil_r; repeat split.
   - pose proof (before_read_good c st wait G Hw) as B. destruct (before_read_J c st wait Hs G Jst Hw) as [E JB].
     pose proof (before_read_J c st wait Hs G Jst Hw) as [_ JB'].
     assert (Hsv : s_served (fst (before_read c st wait)) = s_served st).
